@@ -104,6 +104,32 @@ PIPELINES.append(Pipeline('L1_roundtrip_direct', units=[U_fmt, U_s2c], prelude=G
                           replay=('c13_text', lambda cex, o: ['fmt', cex.first('x', 0)]),
                           note='both real bodies inlined; every loop is bounded by a constant (digits of an int32, the parser\'s own digit limits), so unwinding with unwinding assertions is complete: all 2^32 coordinates'))
 
+
+# ------------------------------------------------------------------ U1 functional, bounded stand-in
+import os
+REF = open(os.path.join(os.path.dirname(os.path.abspath(__file__)), '..', 'stubs', 'c13_ref.h')).read()
+BN = 9
+H_FUNC = '''
+void harness(void) {
+  char buf[%(N1)d]; size_t n; __CPROVER_assume(n <= %(N)d); buf[n] = 0;
+  for (size_t k = 0; k < %(N)d; ++k) if (k < n) __CPROVER_assume(buf[k] != 0);
+  verif_exc = 0; ghost_n = n;
+  const char* p = buf; const char** d = &p;
+  int32_t r = string_to_location_coordinate(d);
+  struct ref_result want = ref_coord(buf, n);
+  __CPROVER_assert((verif_exc == 0) == (want.ok != 0), "F accepted exactly when the grammar accepts and the value is representable");
+  __CPROVER_assert(verif_exc == 0 || verif_exc == EXC_invalid_location, "F rejected with invalid_location");
+  __CPROVER_assert(verif_exc != 0 || r == want.value, "F value is the decimal value rounded half up to 7 places");
+  __CPROVER_assert(verif_exc != 0 || (size_t)(p - buf) == want.consumed, "F consumes exactly the token");
+  __CPROVER_assert(0, "canary");
+}
+''' % dict(N=BN, N1=BN + 1)
+PIPELINES.append(Pipeline('U1_coordinate_parser_value_bounded', units=[U_s2c], prelude=GHOST + REF, harness=H_FUNC, unwind=BN + 53,
+                          loop_contracts=False, solver='kissat', timeout=900, tier='quick',
+                          bounded='input strings of at most %d characters (every string of that length over the full byte alphabet); exponent values therefore below 10^6' % BN,
+                          replay=('c13_text', lambda cex, o: ['coord', hexs(bytes((cex.first('buf[%dl]' % k, 0) or 0) & 255 for k in range(BN)).split(b'\\0')[0])]),
+                          note='functional correctness against the exact-decimal reference, bounded stand-in'))
+
 TRUSTED = ['std::copy_n on char ranges (C++ standard; stub body in stubs/base.h)']
 ASSUMPTIONS = ['input strings are NUL-terminated and shorter than 100000 bytes (object-size bound of the CBMC memory model; loop contracts make the proof independent of the length)']
 NOT_DECIDED = ['Location::set_lon(double) rounding (std::round)', 'calendar arithmetic of timegm/gmtime_r (libc)']
